@@ -144,3 +144,7 @@ pub use crate::types::*;
 // internal modules
 mod common;
 mod tcp;
+
+/// Verification hooks, only present with the `verif-hooks` feature
+#[cfg(feature = "verif-hooks")]
+pub mod verif;
